@@ -5,7 +5,7 @@
    Model on an input built from the regenerated constant: if the source constant moves, the
    observation no longer holds.  Compiled per run by lib/verif.py consts_check, not by the main build. *)
 From Coq Require Import ZArith NArith List Bool.
-From Verif Require Import Base.Word Model.Fsm Model.Lcp Model.Ipcp Model.Ipv6cp.
+From Verif Require Import Base.Word Model.Fsm Model.Lcp Model.Ipcp Model.Ipv6cp Model.FsmOpts.
 From VerifRun Require Import Consts.
 Import ListNotations.
 Local Open Scope N_scope.
@@ -103,6 +103,36 @@ Example ipcp_opt_SecondaryDNS_rx :
 Definition v0 : v6x := mkv6x 77 77 10 [].
 Example ipv6cp_opt_InterfaceID : map ot (v6_req v0) = [zn go_pppoe_IPV6CPOptInterfaceID] := eq_refl.
 Example ipv6cp_opt_InterfaceID_rx : verdict_n (snd (v6_opt v0 (mkopt (zn go_pppoe_IPV6CPOptInterfaceID) (be_bytes 8 5)))) = 0 := eq_refl.
+
+(* ---- the value-level policies of Model/FsmOpts.v (specification side of the T4x theorems) speak about the same option types ---- *)
+Example lcp_policy_MRU :
+  (lcp_acceptable 7 (mkopt (zn go_pppoe_LCPOptMRU) [0; 64]), lcp_offending 7 (mkopt (zn go_pppoe_LCPOptMRU) [0; 63]),
+   lcp_rejectable (mkopt (zn go_pppoe_LCPOptMRU) [0])) = (true, true, true) := eq_refl.
+Example lcp_policy_MagicNumber :
+  (lcp_acceptable 7 (mkopt (zn go_pppoe_LCPOptMagicNumber) [0; 0; 0; 9]), lcp_offending 7 (mkopt (zn go_pppoe_LCPOptMagicNumber) [0; 0; 0; 7]),
+   lcp_offending 7 (mkopt (zn go_pppoe_LCPOptMagicNumber) [0; 0; 0; 0])) = (true, true, true) := eq_refl.
+Example lcp_policy_AuthProto : lcp_rejectable (mkopt (zn go_pppoe_LCPOptAuthProto) [192; 35]) = true := eq_refl.
+Example lcp_policy_PFC :
+  (lcp_acceptable 7 (mkopt (zn go_pppoe_LCPOptPFC) []), lcp_rejectable (mkopt (zn go_pppoe_LCPOptPFC) [0])) = (true, true) := eq_refl.
+Example lcp_policy_ACFC :
+  (lcp_acceptable 7 (mkopt (zn go_pppoe_LCPOptACFC) []), lcp_rejectable (mkopt (zn go_pppoe_LCPOptACFC) [0])) = (true, true) := eq_refl.
+Example lcp_policy_default_MRU_is_max :
+  (lcp_acceptable 7 (mkopt 1 (be_bytes 2 (zn dflt_pppoe_DefaultLCPConfig_MRU))),
+   lcp_offending 7 (mkopt 1 (be_bytes 2 (zn dflt_pppoe_DefaultLCPConfig_MRU + 1))), lcp_mru_max) = (true, true, zn dflt_pppoe_DefaultLCPConfig_MRU) := eq_refl.
+Example ipcp_policy_IPAddress :
+  (ipcp_acceptable i0 (mkopt (zn go_pppoe_IPCPOptIPAddress) [10; 0; 0; 2]), ipcp_offending i0 (mkopt (zn go_pppoe_IPCPOptIPAddress) [10; 0; 0; 3]),
+   ipcp_suggests i0 (mkopt (zn go_pppoe_IPCPOptIPAddress) [0; 0; 0; 0]) (mkopt (zn go_pppoe_IPCPOptIPAddress) [10; 0; 0; 2])) = (true, true, true) := eq_refl.
+Example ipcp_policy_PrimaryDNS :
+  (ipcp_offending i0 (mkopt (zn go_pppoe_IPCPOptPrimaryDNS) [0; 0; 0; 0]),
+   ipcp_suggests i0 (mkopt (zn go_pppoe_IPCPOptPrimaryDNS) [0; 0; 0; 0]) (mkopt (zn go_pppoe_IPCPOptPrimaryDNS) [8; 8; 8; 8])) = (true, true) := eq_refl.
+Example ipcp_policy_SecondaryDNS :
+  (ipcp_offending i0 (mkopt (zn go_pppoe_IPCPOptSecondaryDNS) [0; 0; 0; 0]),
+   ipcp_suggests i0 (mkopt (zn go_pppoe_IPCPOptSecondaryDNS) [0; 0; 0; 0]) (mkopt (zn go_pppoe_IPCPOptSecondaryDNS) [8; 8; 4; 4])) = (true, true) := eq_refl.
+Example ipcp_policy_IPCompression_rejected :
+  (ipcp_rejectable i0 (mkopt (zn go_pppoe_IPCPOptIPCompression) [0; 45; 15; 1]), ipcp_rejectable i0 (mkopt (zn go_pppoe_IPCPOptIPAddresses) [0; 0; 0; 0])) = (true, true) := eq_refl.
+Example ipv6cp_policy_InterfaceID :
+  (v6_acceptable 77 (mkopt (zn go_pppoe_IPV6CPOptInterfaceID) (be_bytes 8 5)), v6_offending 77 (mkopt (zn go_pppoe_IPV6CPOptInterfaceID) (be_bytes 8 77)),
+   v6_offending 77 (mkopt (zn go_pppoe_IPV6CPOptInterfaceID) (be_bytes 8 0))) = (true, true, true) := eq_refl.
 
 (* ---- defaults measured from the real constructors ---- *)
 (* NCP restart counter: MaxRetransmit 0 is replaced by the literal 10 (ipcp.go:671, ipv6cp.go:607); the
